@@ -136,7 +136,7 @@ From Msm Require Import Spec Lemmas_Sim Lemmas_Core Lemmas_SpecRun Lemmas_SpecPr
    invocations, order and arguments, same active ids at every level after every operation, handled / rejected outcome as
    specified. *)
 Theorem C01_back_run_is_the_specified_selection : forall cf md l,
-  c_be cf = Back -> c_fct cf = false -> flat_events md -> core (md_root md) -> depth (md_root md) + 2 <= default_fuel ->
+  c_be cf = Back -> flat_events md -> core (md_root md) -> depth (md_root md) + 2 <= default_fuel ->
   back_start_queues = true -> Forall plain_op l ->
   Forall2 step_ok (spec_run false (c_pol cf) md l) (run cf md l).
 Proof. exact back_run_is_spec. Qed.
@@ -148,6 +148,16 @@ Theorem C01_mp11_run_is_the_specified_selection : forall cf md l,
   Forall2 step_ok (spec_run true (c_pol cf) md l) (run cf md l).
 Proof. exact mp11_run_is_spec. Qed.
 Print Assumptions C01_mp11_run_is_the_specified_selection.
+
+(* every configuration at once: back (either compile policy), back11 (definitions it can compile: no internal tables),
+   backmp11 (outermost machine without history of its own); `is_mp11` only selects what the outermost machine's own entry
+   behaviour reads when a stopped machine is started again (Spec.sp_start_obs) *)
+Theorem C01_every_configuration_runs_the_specified_selection : forall cf md l,
+  flat_events md -> core (md_root md) -> cfg_fits cf md -> depth (md_root md) + 2 <= default_fuel ->
+  back_start_queues = true -> mp11_entry_throw_resets = true -> bracketed false l ->
+  Forall2 step_ok (spec_run (is_mp11 cf) (c_pol cf) md l) (run cf md l).
+Proof. exact run_is_spec. Qed.
+Print Assumptions C01_every_configuration_runs_the_specified_selection.
 
 (* what that function says about one cell: guards of the candidates before the first one that holds are evaluated once
    each, in priority order; that first one is taken; nothing behind it is looked at *)
